@@ -7,4 +7,4 @@ Extraction "model.ml"
   QP.qp_run QP.qp_body QP.qp_decode
   HeaderFold.write_header HeaderFold.unfold_hdr
   Bytes.lines_ok
-  WordEnc.word_encode Writer.write_to Writer.unlimited Writer.fail_at Writer.enc_of_name Writer.sanitize Writer.file_headers.
+  WordEnc.word_encode Writer.write_to Writer.unlimited Writer.fail_at Writer.enc_of_name Writer.sanitize Writer.file_headers Writer.has_mixed Writer.has_related Writer.has_alt.
